@@ -144,7 +144,7 @@ def _requirements(tier):
     req.update({
         "bystander-checks": 25000 if q else 500000,
         "copy-identity-checks": 3000 if q else 60000, "infos-check:compared": 10000 if q else 200000, "infos-consulted-before-op": 3000 if q else 60000, "copy-noop-conversion:form": 100 if q else 2000, "copy-noop-conversion:frame": 100 if q else 2000,
-        "pickle-user-frame:after-name-reuse": 300 if q else 6000,
+        "pickle-user-frame:after-name-reuse": 300 if q else 6000, "propagator-settings-checked": 1000 if q else 20000,
         "poke-checks": 1000,
         "pickle-compared": 200,
         "convert-compared": 300,
@@ -496,7 +496,7 @@ def identity_checks(pool, src, new, op):
     if mr and mn and any(a is b for a, b in zip(mr, mn)):
         ctx.count("recorded:copy-shares-Man-instances")
     if "propagator" in R._data and R._data["propagator"] is N._data.get("propagator"):
-        ctx.count("recorded:copy-shares-propagator-instance")
+        ctx.violation("C15/copy-shares-propagator-settings", w(), f"{op}: the propagator object (and its settings) is the same in copy and source")
 
 
 def poke(pool, rng, a_entry, b_obj, b_label, op):
@@ -587,6 +587,7 @@ def run_histories(ctx, job, idx, rng, st):
 
     if idx % 4 == 0:
         pickle_user_frame(ctx, idx, rng, descrs[0])
+        propagator_settings(ctx, idx, rng, descrs[0])
 
     for step in range(nops):
         ti = rng.randrange(len(pool.entries))
@@ -814,6 +815,37 @@ def infos_check(pool, rng):
         ok = all(g == x or abs(g - x) <= 1e-12 * max(1.0, abs(x)) for g, x in zip(got, exp))
         ctx.expect(ok, "C15/derived-quantities-are-those-of-another-state", pool.wit(object=e.label, infos=list(got), of_a_fresh_state_with_the_same_numbers=list(exp)),
                    f"{e.label}.infos reports a={got[0]!r}, r={got[2]!r}; a new state with the same numbers reports a={exp[0]!r}, r={exp[2]!r}")
+
+
+def propagator_settings(ctx, idx, rng, descr):
+    """The propagator an orbit carries holds settings (step, method, attracting bodies): they are data of THAT orbit.
+    Changed on a copy (plain or converted), they do not show in the original, and conversely."""
+    from beyond.dates import timedelta
+    from beyond.env.solarsystem import get_body
+    from beyond.propagators.keplernum import KeplerNum
+
+    d = dict(descr, cls="Orbit", cov_frame=None, cov=None)
+    obj = build(d)
+    step0, method0 = timedelta(seconds=rng.choice([30, 60, 120])), rng.choice(["rk4", "dopri54"])
+    obj.propagator = KeplerNum(step0, get_body("Earth"), method=method0)
+    kinds = {"copy()": {}, "copy(form)": {"form": "keplerian" if obj.form.name != "keplerian" else "cartesian"}, "copy(frame)": {"frame": "MOD" if obj.frame.name != "MOD" else "EME2000"}}
+    for op, kw in kinds.items():
+        w = {"state": d, "op": op, "step": str(step0), "method": method0}
+        for who in ("copy", "original"):
+            try:
+                cp = obj.copy(**kw)
+                a, b = (cp, obj) if who == "copy" else (obj, cp)
+                before = (b.propagator.step, b.propagator.method, tuple(x.name for x in b.propagator.bodies))
+                a.propagator.step = timedelta(seconds=600)
+                a.propagator.method = "euler"
+                after = (b.propagator.step, b.propagator.method, tuple(x.name for x in b.propagator.bodies))
+                obj.propagator.step, obj.propagator.method = step0, method0
+            except Exception as exc:
+                ctx.violation("C15/propagator-settings-scenario-raises", dict(w, exc=repr(exc)), f"{op}: {exc!r}")
+                return
+            ctx.count("propagator-settings-checked")
+            ctx.expect(before == after and a.propagator is not b.propagator, "C15/copy-shares-propagator-settings", dict(w, changed_on=who, before=str(before), after=str(after)),
+                       f"{op}: step / method changed on the propagator of the {who} show in the other object ({before} -> {after})")
 
 
 def pickle_user_frame(ctx, idx, rng, descr):
